@@ -227,6 +227,85 @@ fn parse(case: &Value) -> (Spec, Option<Spec>, Spec, Vec<u8>, Vec<u8>) {
   )
 }
 
+/// Clone a typed root, mutate the clone (and, in a second pass, the original)
+/// and require that the other one still equals a fresh build in text, hash
+/// and equality, and that the mutated one shows exactly the mutation.
+fn clone_then_mutate(sa: &Spec, obs: &mut Obs) {
+  use rspack_sources::{ConcatSource, RawSource, ReplaceSource, SourceExt};
+  let text0 = build_box(sa).source().to_string();
+  // `fresh`: an untouched object of the same concrete type, built the same way
+  let judge = |who: &str, fresh: BoxSource, untouched: BoxSource, mutated: BoxSource, expect_mutated: &str, obs: &mut Obs| {
+    let hash0 = stable_hash(&fresh);
+    obs.count("clone_then_mutate", 1);
+    if untouched.source() != text0 || stable_hash(&untouched) != hash0 || !beq(&untouched, &fresh) {
+      obs.fail(
+        "mutating_a_clone_changed_the_other",
+        format!("{who}: the untouched one now reads {:?} (was {:?}), equal to a fresh build: {}; tree {}", untouched.source(), text0, beq(&untouched, &fresh), serde_json::to_string(sa).unwrap()),
+      );
+    }
+    if mutated.source() != expect_mutated {
+      obs.fail(
+        "mutated_clone_wrong",
+        format!("{who}: the mutated one reads {:?}, expected {:?}; tree {}", mutated.source(), expect_mutated, serde_json::to_string(sa).unwrap()),
+      );
+    }
+    if beq(&untouched, &mutated) && text0 != expect_mutated {
+      obs.fail("clone_still_equal_after_mutation", format!("{who}: == although the texts differ; tree {}", serde_json::to_string(sa).unwrap()));
+    }
+  };
+  match sa {
+    Spec::Concat { .. } => {
+      for mutate_clone in [true, false] {
+        let crate::spec::Built::Concat(orig) = crate::spec::build(sa) else { return };
+        // observe first so that anything lazily computed exists before cloning
+        let _ = (orig.source().len(), stable_hash(&orig));
+        let mut orig: ConcatSource = orig;
+        let fresh = crate::spec::build(sa).boxed();
+        let mut cl = orig.clone();
+        let expect = format!("{text0}+tail");
+        if mutate_clone {
+          cl.add(RawSource::from("+tail"));
+          judge("ConcatSource clone.add()", fresh, orig.boxed(), cl.boxed(), &expect, obs);
+        } else {
+          orig.add(RawSource::from("+tail"));
+          judge("ConcatSource original.add() after clone()", fresh, cl.boxed(), orig.boxed(), &expect, obs);
+        }
+      }
+    }
+    Spec::Replace { inner, ops } => {
+      for mutate_clone in [true, false] {
+        let mut orig = ReplaceSource::new(build_box(inner));
+        ops.iter().for_each(|op| crate::spec::apply_op(&mut orig, op));
+        let _ = (orig.source().len(), stable_hash(&orig));
+        let fresh = {
+          let mut f = ReplaceSource::new(build_box(inner));
+          ops.iter().for_each(|op| crate::spec::apply_op(&mut f, op));
+          f.boxed()
+        };
+        let mut cl = orig.clone();
+        // an insertion in front of everything: Pre enforce at position 0
+        let expect = {
+          let mut all = ops.to_vec();
+          all.push(crate::spec::Op { start: 0, end: 0, content: "HEAD+".into(), name: None, enforce: 0, plain_api: false, observe_before: false });
+          crate::model::splice::splice_text(&inner.model_text(), &all)
+        };
+        let head = crate::spec::Op { start: 0, end: 0, content: "HEAD+".into(), name: None, enforce: 0, plain_api: false, observe_before: false };
+        if !inner.is_all_utf8() {
+          return;
+        }
+        if mutate_clone {
+          crate::spec::apply_op(&mut cl, &head);
+          judge("ReplaceSource clone + insert", fresh, orig.boxed(), cl.boxed(), &expect, obs);
+        } else {
+          crate::spec::apply_op(&mut orig, &head);
+          judge("ReplaceSource original + insert after clone()", fresh, cl.boxed(), orig.boxed(), &expect, obs);
+        }
+      }
+    }
+    _ => {}
+  }
+}
+
 fn check14(case: &Value, obs: &mut Obs) {
   // every second case builds equal-table maps as clones of each other
   // (clone() + set_file / set_source_root / set_debug_id), the way a program
@@ -257,6 +336,9 @@ fn check14(case: &Value, obs: &mut Obs) {
   if ad != a2d {
     obs.fail("same_construction_not_equal", ctx("&dyn Source views of two builds are !=".into()));
   }
+  // a clone that is changed afterwards leaves its original alone (typed
+  // roots only: ConcatSource::add, ReplaceSource::replace / insert)
+  clone_then_mutate(&sa, obs);
   // clone == original, observationally identical
   let cl: BoxSource = std::sync::Arc::from(dyn_clone::clone_box(&*a));
   if !beq(&cl, &a) || stable_hash(&cl) != h0 {
